@@ -62,7 +62,9 @@ class Scaler(Transformer):
         if weights is None:
             wghts: DataVarBound = feature_ones_like(X, self.feature_dims)
         else:
-            wghts: DataVarBound = weights
+            # Shallow copy: the stored array is renamed when the model is serialized,
+            # which must not rename the user's own object
+            wghts: DataVarBound = weights.copy(deep=False)
 
         return wghts
 
